@@ -80,3 +80,56 @@ func predicateHelperDNF(g Guard) [][]Guard {
 	}
 	return out
 }
+
+// boolPhiDNF expands a guard on a boolean phi (the SSA form of `x := a && b`, `a || b` or of an
+// if/else assigning constants) into the conditions under which the phi has the guard's polarity:
+// one conjunction per incoming edge that can carry that value - the guards of the edge's origin
+// plus, for a non-constant edge, the edge value itself. nil when g is not such a phi.
+func boolPhiDNF(g Guard) [][]Guard {
+	ph, ok := g.Cond.(*ssa.Phi)
+	if !ok {
+		return nil
+	}
+	if b, isb := ph.Type().Underlying().(*types.Basic); !isb || b.Kind() != types.Bool {
+		return nil
+	}
+	var out [][]Guard
+	for i, e := range ph.Edges {
+		pred := ph.Block().Preds[i]
+		if ph.Block().Dominates(pred) {
+			return nil // loop-carried: not a pure expression
+		}
+		conj := append([]Guard{}, DomGuards(pred)...)
+		conj = append(conj, edgeGuards(pred, ph.Block())...)
+		if c, isc := e.(*ssa.Const); isc {
+			if c.Value == nil || c.Value.Kind() != constant.Bool {
+				return nil
+			}
+			if constant.BoolVal(c.Value) != g.Pol {
+				continue
+			}
+		} else {
+			conj = append(conj, normGuard(Guard{e, g.Pol, pred}))
+		}
+		out = append(out, conj)
+	}
+	if len(out) == 0 || len(out) > 16 {
+		return nil
+	}
+	return out
+}
+
+// impliedGuards returns g together with the guards it implies when it is a boolean phi with a
+// single way of having its polarity (`x := a && b; if x` implies a and b), recursively.
+func impliedGuards(g Guard, depth int) []Guard {
+	out := []Guard{g}
+	if depth == 0 {
+		return out
+	}
+	if dnf := boolPhiDNF(g); len(dnf) == 1 {
+		for _, h := range dnf[0] {
+			out = append(out, impliedGuards(h, depth-1)...)
+		}
+	}
+	return out
+}
